@@ -51,6 +51,9 @@ def run(ctx):
         return
     # (1) strings: impl vs model (tree equality) and impl vs spec (denotation = evalSrc)
     srcs = [gen.gen_src(rng, maxn=rng.range(1, 6)) for _ in range(ctx.budget(3000, 100000))]
+    # non-ASCII identifiers: outside the Lean model (XID tables), but the spec `evalSrc` does not care — impl vs spec only
+    srcs += [gen.gen_src(rng, maxn=rng.range(1, 5), fmts=False, vars_=gen.NONASCII_VARS, comp_names=gen.NONASCII_COMPS) for _ in range(ctx.budget(600, 20000))]
+    srcs += [gen.gen_long_src(rng, rng.range(20, 70)) for _ in range(ctx.budget(30, 600))]
     corpus = ["<b>x</b >tail", "<b>x</b >", "a <b>b <b>c</b> d</b> e", "{{ x }}{{y}}<i>{{ x }}</i>", "<p>test<h3>this is a h3</h3>not closing p"]
     strings = corpus + [gen.print_src(s) for s in srcs] + [gen.soup(rng) for _ in range(ctx.budget(1000, 20000))]
     impl = run_lines_resilient(binp, [{"op": "parse_new", "s": s} for s in strings], timeout=3600)
